@@ -3,24 +3,30 @@ from harness.suites import fe_fuzz, fe_rules
 
 
 MANIFEST = dict(
-    text='PROVED (Lean 4, Props/C03.lean) for the crash layer of two component models that follow the code with '
-         'Python\'s partiality made explicit: type instantiation (_instantiate_data_type + the __init__ checks of '
-         'stone/ir/data_types.py) never ends in an exception other than the spec error outside one named site '
-         '(List(T, min_items=<text | null | type>): TypeError from `<`), and when it does the exception is that '
-         'TypeError; name registration (_create_* / _check_canonical_name_available) never does on inputs without '
-         'annotations, without built-in names and without a second non-route definition of one exact name - each '
-         'excluded site is witnessed on a concrete input and replayed on the implementation. Both models are total '
+    text='PROVED (Lean 4, Props/C03.lean), full strength, for the crash layer of two component models that follow the '
+         'code with Python\'s partiality made explicit: type instantiation (_instantiate_data_type + the __init__ '
+         'checks of stone/ir/data_types.py) ends in a type or in the spec error for every built-in type and every '
+         'argument list (instantiate_no_crash: every comparison is guarded by an isinstance test and the constructor is '
+         'never called with the wrong number of arguments); name registration (_create_* / '
+         '_raise_symbol_already_defined / _check_canonical_name_available) ends in a state or in the spec error for '
+         'every list of files (register_no_crash: min(existing.at_version) is never applied to an empty dictionary). '
+         'The crash sites the first version of the models excluded (List(T, min_items="a"); a clash that involves an '
+         'annotation; a definition named like a built-in type, a route or an annotation type) are repaired in the code; '
+         'the former witnesses are kept as regression statements of the new behaviour. Both models are total '
          'functions (termination by construction). Tied to the code by the translator tables and by differential '
          'runs (fe.params, fe.names: outcome class ok / InvalidSpec / exception class compared strictly). '
          'TESTED, NOT PROVED (the statement for whole specs and arbitrary text): crash fuzzing of the real specs_to_ir '
          '- generated specs after 1-3 token-level edits, every string over a 14-token alphabet up to a length after a '
-         'namespace header plus random longer ones, the code blocks of docs/lang_ref.rst, every rule-violation '
-         'injection of C01 - with the oracle "returns, or raises InvalidSpec with a non-empty str message, int|None '
-         'line and a path among the inputs"; a sample through stone.cli.main checks exit status 1 and '
+         'namespace header plus random longer ones, the code blocks of docs/lang_ref.rst, the seeds of corpus/C03, every '
+         'rule-violation injection of C01 - with the oracle "returns, or raises InvalidSpec with a non-empty str '
+         'message, int|None line and a path among the inputs"; a sample through stone.cli.main checks exit status 1 and '
          '`path:line: error: message`.',
     note='Trusted: Lean kernel, translator, generators. ply (lex / yacc) is not modelled; the parser and the remaining '
-         'passes of the IR generator are covered by fuzzing only. A wall-clock limit of 20 s (90 s on re-run) stands '
-         'in for termination of the real compiler.',
+         'passes of the IR generator are covered by fuzzing only. A limit of 20 s of processor time per compile '
+         '(independent of machine load; a wall-clock alarm ten times as long is the backstop) stands in for termination '
+         'of the real compiler; a timeout is reported only when it repeats with the case run alone under three times '
+         'the limit, and its signature names the stone frame that was executing (e.g. data_types.String.check for '
+         'catastrophic regex backtracking).',
     technique='Lean 4 proof of component crash layers + translator + differential correspondence; fuzzing for the '
               'end-to-end statement',
     design='5 C03')
@@ -39,7 +45,7 @@ def run(ck):
     fe_rules.suite_violations(ck, n_models=ck.scale(10, 150), per_rule=ck.scale(2, 6), report='C03')
     ck.assumptions.extend([
         'type arguments reach _instantiate_data_type as literals, the null token or resolved types (what the parser builds)',
-        'termination of the real compiler is observed with a wall-clock limit, not proved',
+        'termination of the real compiler is observed with a processor-time limit, not proved',
     ])
     return ck.finish(rule=RULE)
 
@@ -49,7 +55,8 @@ def replay(ck, path):
     rec = json.load(open(path))
     case = rec.get('case', rec)
     specs = [tuple(s) for s in case['specs']]
-    v = fe_fuzz.classify(specs)
+    limit = min(20, case.get('limit_s') or (case.get('verdict') or {}).get('limit_s') or 20)
+    v = fe_fuzz.confirm_timeout(specs, fe_fuzz.classify(specs, limit_s=limit))
     print('replay:', v)
     fe_fuzz.judge(ck, [list(s) for s in specs], v, case.get('origin', 'replay'), do_shrink=False)
     return ck.finish(rule=RULE)
